@@ -5,7 +5,7 @@ from vlib.runner import Case
 
 PID = "C11"
 PROPS = ["Props/C11.v"]
-GEN = ["Env.v"]
+GEN = ["Rx.v"]
 MODEL_IS_SPEC = False
 RULE = ("I-Regexp patterns generated from the RFC 9485 syntax tree (literals, escaped metacharacters, '.', classes with ranges / negation / category escapes / the punctuation that is "
         "special in other dialects, groups, alternation, all quantifier forms; no '^' or '$' atoms) x subject strings over {letters, digits, LF, CR, U+2028, | & ~ - [ ] ^ . \\, space, "
@@ -17,7 +17,7 @@ TRUSTED_BASE = [
     "Spec/IRegexp.v: AST, parser and language semantics as a reading of RFC 9485; matcher proved equal to the language definition (matches_correct)",
     "Unicode general categories are a parameter of the specification, instantiated per case from Python's unicodedata for the characters of the subject",
     "the regex and iregexp_check engines are third-party compiled code and are NOT modelled: their agreement with RFC 9485 on the generated patterns is what this check tests",
-    "Model/MapRe.v hand-written from _pattern.map_re; regenerated facts (Gen/Env.v): which regex entry point each function calls and that no flags are passed",
+    "Model/MapRe.v hand-written from _pattern.map_re; regenerated facts (Gen/Rx.v, tools/pygen/rx_probe.py: both functions are executed on sample arguments under a recording proxy around the regex module): which regex entry point each function reaches, with no flag argument, once per evaluation, on (map_re(pattern), string)",
     "extraction (ExtrOcamlBasic only) and the OCaml integer driver",
 ]
 ASSUMPTIONS = ["quantities above 64 are not expanded by the specification matcher (reported as undecided and skipped)", "'^' and '$' are excluded (disputed reading)"]
